@@ -3,7 +3,7 @@
    no Extract Constant of ours; N / positive / byte / string stay Coq inductives. *)
 Require Extraction.
 Require Import ExtrOcamlBasic.
-From Jamm Require Import Bytes Fnv Consts CLayout Meta Spec Codec Tree CheckM Cursor PL Freelist Conc ApiSig ApiFlow Engine EngineAbs SpecPath EngineRefines.
+From Jamm Require Import Bytes Fnv Consts CLayout Meta Spec Codec Tree CheckM Cursor PL Freelist Conc ApiSig ApiFlow Engine EngineAbs SpecPath EngineRefines EngineR.
 Extraction Language OCaml.
 Set Extraction KeepSingleton.
 Separate Extraction
@@ -22,4 +22,5 @@ Separate Extraction
   Engine.run_tx Engine.run_tx_auto Engine.init_db Engine.reopen_db Engine.dget
   EngineAbs.abs_db EngineAbs.sem_tx Spec.strip
   SpecPath.path_step SpecPath.pinit SpecPath.expand
-  EngineRefines.checkedb EngineRefines.readableb EngineRefines.db_alloc_okb.
+  EngineRefines.checkedb EngineRefines.readableb EngineRefines.db_alloc_okb
+  EngineR.run_tx_r.
